@@ -126,13 +126,21 @@ def run_sharded(prop, tier, seed):
       cmd = [sys.executable, "-m", "harness.run", prop.id, "--tier", tier,
              "--shard", "%d/%d" % (k, prop.shards), "--out", out]
       env = dict(os.environ, VERIF_SEED=str(seed), PYTHONHASHSEED="0")
-      procs.append((k, out, subprocess.Popen(cmd, cwd=common.VERIF, env=env,
-                                             stdout=subprocess.PIPE, stderr=subprocess.STDOUT)))
+      # (whatever a shard prints goes to a file: the library prints when live output has no
+      # callback, and a pipe nobody reads yet would stall the shard once it is full)
+      log = open(os.path.join(work, "shard-%d.log" % k), "wb")
+      procs.append((k, out, subprocess.Popen(cmd, cwd=common.VERIF, env=env, stdout=log, stderr=subprocess.STDOUT),
+                    log))
     parts, failures, errors = [], [], []
-    for k, out, p in procs:
-      text, _ = p.communicate()
+    for k, out, p, log in procs:
+      p.wait()
+      log.close()
       if p.returncode != 0 or not os.path.exists(out):
-        errors.append("shard %d exit %s: %s" % (k, p.returncode, text.decode("utf-8", "replace")[-2000:]))
+        with open(log.name, "rb") as f:
+          f.seek(0, 2)
+          f.seek(max(0, f.tell() - 2000))
+          text = f.read()
+        errors.append("shard %d exit %s: %s" % (k, p.returncode, text.decode("utf-8", "replace")))
         continue
       with open(out) as f:
         body = json.load(f)
